@@ -43,7 +43,12 @@ RULE = ("random discrete Bayesian networks with 1..6 variables, cardinalities 1.
         "exact values under torch); (J) n_jobs 1 / 2 / -1, include_properties, prettyprint=False, round_values, string= and "
         "path= routes, comments in each format's syntax, save/load for every extension x filetype pair; (K) writers given "
         "another model type, readers given no input, texts with a number (BIF: a row) removed must raise; (L) node / edge / CPD / "
-        "evidence / factor orders and hash seeds; (M) all kinds shuffled together.  Any exception of a reader or writer on "
+        "evidence / factor orders and hash seeds; (M) all kinds shuffled together; (N) every name and state handed to pgmpy is a freshly built, equal but "
+        "not identical str; (O) the readwrite API has no iterable arguments (model, path/string, filetype, n_jobs, "
+        "state_name_type=int is exercised) -- not applicable; (P) networks of sizes 8, 9, 16, 17, 24, 25, 32, 33, 34 "
+        "(every size 1..34 in the thorough tier) through BIF with n_jobs omitted / 2 / 1 by string, path and load, the "
+        "other formats at the same sizes, a variable with 257..1000 states; (Q) columns typed with three decimals whose "
+        "sum is not 1 come back verbatim; (R) options are drawn independently and the BIF pairs are listed.  Any exception of a reader or writer on "
         "these valid models is a violation.  Non-trivial: some CPD has a parent; distinct = distinct canonical case")
 TRUSTED_BASE = ["pyparsing / xml.etree tokenisation of the text (the harness parses the written text independently "
                 "with regular expressions to obtain the abstract document)",
@@ -408,7 +413,7 @@ def cases(tier, seed):
     if tier == "quick":
         # (n_jobs omitted = the default -1 costs ~25 s per worker process: in the quick tier it is exercised by the
         #  corpus case seed-C09-I-sizes17-default.json only)
-        size_cases = [([9, 17, 25, 33, 8, 16, 32, 34], 2, ["bif"], True), ([9, 33, 24], 1, ["bif"], True),
+        size_cases = [([9, 17, 25, 33, 8, 16, 32, 34], 2, ["bif"], False), ([9, 33, 24], 1, ["bif"], True),
                       ([8, 9, 16, 17], 1, ["xmlbif", "uai", "net"], True), ([32, 33], 1, ["xmlbif", "net"], False)]
     else:
         size_cases = []
